@@ -28,9 +28,14 @@ INT_RANGE = {"int": (-(1 << 63), (1 << 63) - 1), "int8": (-128, 127), "int16": (
 INT_KINDS = list(INT_RANGE)
 KINDS = ["bool"] + INT_KINDS + ["float32", "float64", "complex64", "complex128", "string"]
 COQ_KIND = {k: "K" + k[0].upper() + k[1:] for k in KINDS}
-COQ_OKIND = {"chan": "OChan", "array": "OArray", "func": "OFunc", "iface": "OIface"}
+COQ_OKIND = {"chan": "OChan", "array": "OArray", "func": "OFunc", "iface": "OIface", "foreign": "OUnsafe"}
+# ("o", "foreign", 77): the dynamic type of harness value ErrUser (*errors.errorString) - a type outside the
+# generated universe (model: Other OUnsafe 77), only ever the dynamic type of a converter result
+FOREIGN = ("o", "foreign", 77)
+ANY_ = ("o", "iface", 1)
+ERROR_ = ("o", "iface", 2)
 GO_OTHER = {("chan", 1): "chan int", ("chan", 2): "chan string", ("array", 1): "[2]int", ("array", 2): "[3]int",
-            ("func", 1): "func()", ("iface", 1): "any"}
+            ("func", 1): "func()", ("iface", 1): "any", ("iface", 2): "error"}
 FLOATS = [1.5, -2.25, 3.0, 1e10, 0.1, -7.0]
 
 
@@ -134,6 +139,10 @@ def sx_fn(fn):
         return "(const %s)" % sx_val(fn[1])
     if fn[0] == "add":
         return "(add %d)" % fn[1]
+    if fn[0] == "dyn":
+        return "(dyn %s %s)" % (sx_ty(fn[1]), sx_val(fn[2]))
+    if fn[0] == "nilif":
+        return "(nilif %s %s %s)" % (sx_val(fn[1]), sx_ty(fn[2]), sx_val(fn[3]))
     return "(%s)" % fn[0]
 
 
@@ -303,7 +312,14 @@ def go_val(c, t, v):
         return "%s{%s}" % (gt, ", ".join(str((z // 1000 ** i) % 1000) for i in range(n)))
     if ok == "func":
         return "(func())(nil)" if z == 0 else "Fn1"
+    if oid == 2:
+        return ["error(nil)", "ErrUser"][z]
     return ["any(nil)", "any(int(7))", 'any("x")'][z]
+
+
+def go_dyn(c, t, v):
+    """Go expression of the dynamic value v : t a converter to an interface type returns"""
+    return "ErrUser" if t == FOREIGN else go_val(c, t, v)
 
 
 def go_optname(i):
@@ -323,6 +339,12 @@ def go_opt(c, o):
         body = "var z %s; return z, ErrUser" % gd
     elif fn[0] == "add":
         body = "return (%s)(x) + (%d), nil" % (gd, fn[1])
+    elif fn[0] == "cnil":
+        body = "return nil, nil"
+    elif fn[0] == "dyn":
+        body = "return %s, nil" % go_dyn(c, fn[1], fn[2])
+    elif fn[0] == "nilif":
+        body = "if x == %s { return nil, nil }; return %s, nil" % (go_val(c, s, fn[1]), go_dyn(c, fn[2], fn[3]))
     elif fn[0] == "id":
         body = "return (%s)(x), nil" % gd
     else:
@@ -454,7 +476,9 @@ def coq_opt(o):
         return "(OConvert %d None)" % o[1]
     s, d, fn = o[2]
     f = {"const": lambda: "(FConst %s)" % coq_val(fn[1]), "fail": lambda: "FFail", "add": lambda: "(FAdd %s)" % cz(fn[1]),
-         "id": lambda: "FId", "len": lambda: "FLen"}[fn[0]]()
+         "id": lambda: "FId", "len": lambda: "FLen", "cnil": lambda: "FNil",
+         "dyn": lambda: "(FDyn %s %s)" % (coq_ty(fn[1]), coq_val(fn[2])),
+         "nilif": lambda: "(FNilIf %s %s %s)" % (coq_val(fn[1]), coq_ty(fn[2]), coq_val(fn[3]))}[fn[0]]()
     return "(OConvert %d (Some (mk_conv %s %s %s)))" % (o[1], coq_ty(s), coq_ty(d), f)
 
 
@@ -747,7 +771,7 @@ class Gen:
             return ("op", sum(r.choice([0, 1, 7, 999, r.randint(0, 999)]) * 1000 ** i for i in range(n)))
         if ok == "func":
             return ("op", 1)
-        return ("op", r.randint(1, 2))
+        return ("op", 1 if oid == 2 else r.randint(1, 2))
 
     def nonzero(self, t):
         for _ in range(20):
@@ -1097,11 +1121,54 @@ def fam_options(g):
     return cs
 
 
+def fam_iface_conv(g):
+    """converters whose Dst type parameter is an INTERFACE type (ConvertField[string, any], ConvertField[int, error]):
+    the result is the nil interface for some arguments (reflect.TypeOf(nil) is the nil Type) or a dynamic value;
+    destination fields of interface type, of the dynamic type, or of another type"""
+    r = g.r
+    nf = r.randint(1, 3)
+    fids = g.fids(nf, 6)
+    sfs, dfs, opts, trig, other = [], [], [], {}, {}
+    for f in fids:
+        S = r.choice([I_, S_])
+        z = g.nonzero(S) if r.random() < 0.5 else zero_val(S)      # the argument mapped to the nil interface
+        o = g.nonzero(S)
+        while o == z:
+            o = g.nonzero(S)
+        D = r.choice([ANY_, ANY_, ERROR_])
+        if D == ERROR_:
+            dynt, dynv = FOREIGN, ("op", 1)
+            dft = r.choice([ERROR_, ERROR_, ANY_, S])
+        else:
+            dynt = r.choice([S, I_, S_, FOREIGN])
+            dynv = ("op", 1) if dynt == FOREIGN else g.nonzero(dynt)
+            dft = r.choice([ANY_, ANY_, S, dynt if dynt != FOREIGN else I_, I_ if S == S_ else S_])
+        fns = [("cnil",), ("dyn", dynt, dynv), ("nilif", z, dynt, dynv), ("nilif", z, dynt, dynv), ("fail",)]
+        if D == ANY_:
+            fns.append(("id",))
+        sfs.append((f, True, S))
+        dfs.append((f, True, dft))
+        opts.append(("cv", f, (S, D, r.choice(fns))))
+        trig[f], other[f] = z, o
+    T = mkstruct(g.fresh() if r.random() < 0.4 else None, *sfs)
+    D_ = mkstruct(g.fresh() if r.random() < 0.4 else None, *dfs)
+    as_default = r.random() < 0.5
+    popts = () if as_default else tuple(opts)
+
+    def src(p_trig):
+        return ("st", tuple(trig[f] if r.random() < p_trig else other[f] for f in fids))
+    calls = [("copy", src(1.0), popts), ("copy", src(0.0), popts), ("copyto", src(0.5), g.val(D_, 0.3), popts)]
+    if r.random() < 0.5:
+        calls.append(("copy", src(0.5), ()))
+    r.shuffle(calls)
+    return dict(src=T, dst=D_, opts=tuple(opts) if as_default else (), calls=tuple(calls))
+
+
 FAMILIES = [("identical", fam_identical, 8), ("renamed", fam_renamed, 5), ("overlap", fam_overlap, 8),
             ("kind_mismatch", fam_kind_mismatch, 10), ("ptr_value", fam_ptr_value, 9), ("nested", fam_nested, 10),
             ("multiptr", fam_multiptr, 6), ("unexported", fam_unexported, 6), ("named_basic", fam_named_basic, 5),
             ("slices_maps", fam_slices_maps, 7), ("time", fam_time, 6), ("other", fam_other, 5), ("entry", fam_entry, 4),
-            ("options", fam_options, 14), ("random", fam_random, 12)]
+            ("options", fam_options, 14), ("random", fam_random, 12), ("iface_conv", fam_iface_conv, 8)]
 
 
 def edge_cases(g):
@@ -1140,6 +1207,13 @@ def corpus():
                calls=(("copy", v, (("ig", (4,)), ("cv", 3, cv))), ("copy", v, ()), ("copyto", v, old, ()))),
           dict(src=T, dst=T, opts=(), calls=(("copyto", ("st", (("i", 0), ("x", b""), ("i", 3), ("x", b"d"))), old, ()),
                                              ("pure", ("st", (("i", 0), ("x", b""), ("i", 3), ("x", b"d"))), old)))]
+    # a converter to an interface type that returns the nil interface for "" (reflect.TypeOf(nil) == nil -> type-mismatch error)
+    cs.append(dict(src=mkstruct(None, (1, True, S_)), dst=mkstruct(None, (1, True, ANY_)),
+                   opts=(("cv", 1, (S_, ANY_, ("nilif", ("x", b""), I_, ("i", 2)))),),
+                   calls=(("copy", ("st", (("x", b""),)), ()), ("copy", ("st", (("x", b"ab"),)), ()))))
+    cs.append(dict(src=mkstruct(None, (1, True, I_)), dst=mkstruct(None, (1, True, ERROR_)), opts=(),
+                   calls=(("copyto", ("st", (("i", 0),)), ("st", (("op", 1),)), (("cv", 1, (I_, ERROR_, ("cnil",))),)),
+                          ("copy", ("st", (("i", 3),)), (("cv", 1, (I_, ERROR_, ("dyn", FOREIGN, ("op", 1)))),)))))
     # the replay of the known finding C20:copy:zero-skip (known_findings.json), verbatim
     Z1 = mkstruct(None, (1, True, I_))
     cs.append(dict(src=Z1, dst=Z1, opts=(), calls=(("copyto", ("st", (("i", 0),)), ("st", (("i", 9),)), ()),)))
